@@ -34,6 +34,14 @@ def _CLN(ctx, xs):
     return VB(CLN(xs.z))
 
 
+CLEANSRC = Function('cleansrc', TokSeq, BoolSort())   # the source of this token stream has no NUL/DEL characters
+
+
+@REG.specfun('cleansrc')
+def _cleansrc(ctx, buf):
+    return VB(CLEANSRC(ctx.st.heap[buf.a['ref']]['Q'].z))
+
+
 def wft_z(eng, Q, k):
     """well-formedness facts of token k that the tokenizer contracts establish (texts of the structural tokens)"""
     TC = eng.repo.enum('TC')
@@ -45,7 +53,7 @@ def wft_z(eng, Q, k):
           Implies(Or(ct == TC['CommandName'], ct == TC['PunctuationCommandName']),
                   And(NW(tx) == tx, str_strip(tx) == tx)),
           # with no NUL/DEL in the input, a backslash token is followed by a name token (or by nothing)
-          Implies(And(ct == TC['Escape'], k + 1 < Length(Q)),
+          Implies(And(CLEANSRC(Q), ct == TC['Escape'], k + 1 < Length(Q)),
                   Or(Tok.cat(Q[k + 1]) == TC['CommandName'], Tok.cat(Q[k + 1]) == TC['PunctuationCommandName']))]
     for cls in data_c.GROUPS + data_c.MATHS:
         b, e = eng.repo.class_attr(cls, 'begin'), eng.repo.class_attr(cls, 'end')
@@ -125,8 +133,9 @@ def publish_ghost(eng, st, obj, e, sz, A_, C_):
         st.fact(tight(e) == And(NT(e), TAg(A_), TL(C_), closer5(e)))
         g = obj.a.get('name_group')
         if g is not None:       # defining equation of the ghost predicate NT for this fresh expression
-            st.fact(NT(e) == And(tight(g), Not(gapped(g)), Not(isbare(g)), kind(g) == kind_of('data.BraceGroup'),
-                                 str_strip(SL(body(g))) == SL(body(g))))
+            st.fact(NT(e) == And(tight(g), clean(g), Not(gapped(g)), Not(isbare(g)), kind(g) == kind_of('data.BraceGroup'),
+                                 str_strip(SL(body(g))) == SL(body(g)),
+                                 st.heap[obj.a['ref']]['name'].z != pystr('[tex]')))      # D6, D17, D18
     else:
         st.fact(tight(e) == And(TAg(A_), TL(C_)))
 
@@ -201,15 +210,15 @@ REG.add(Contract(
         P(['C13'], 'position', 'epos(result) == c.position'),
         P(['C09', 'C07'], 'strict-implies-closed',
           'tolerance == 0 ==> src.i >= old(src.i) + 1 and src.Q[src.i - 1].cat == ' + ENDCAT),
-        P(['C08', 'C01'], 'exact-when-tight', 'tolerance == 0 and tight(result) ==> ser(result) == ' + _RA_SPAN),
-        P(['C08'], 'conserves-non-blank', 'tolerance == 0 and clean(result) ==> NW(ser(result)) == NW(%s)' % _RA_SPAN),
+        P(['C08', 'C01'], 'exact-when-tight', 'tolerance == 0 and cleansrc(src) and tight(result) ==> ser(result) == ' + _RA_SPAN),
+        P(['C08'], 'conserves-non-blank', 'tolerance == 0 and cleansrc(src) and clean(result) ==> NW(ser(result)) == NW(%s)' % _RA_SPAN),
         G('gapped', 'gapped(result) == (old(src.i) >= 2 and src.Q[old(src.i) - 2].cat == TC.MergedSpacer)'),
         G('not-bare', 'not isbare(result)')],
     loops={0: Loop(ghost={'content': 'hlist[1,E]'},
                    invariant=[A('inv', 'inv(src)'), A('range', 'old(src.i) <= src.i'),
-                              A('exact', 'tolerance == 0 and TL(content[1:]) ==> SL(content[1:]) == '
+                              A('exact', 'tolerance == 0 and cleansrc(src) and TL(content[1:]) ==> SL(content[1:]) == '
                                 + Wx('old(src.i)', 'src.i')),
-                              A('non-blank', 'tolerance == 0 and CLN(content[1:]) ==> NW(SL(content[1:])) == NW(%s)'
+                              A('non-blank', 'tolerance == 0 and cleansrc(src) and CLN(content[1:]) ==> NW(SL(content[1:])) == NW(%s)'
                                 % Wx('old(src.i)', 'src.i'))],
                    decreases=MEASURE)}))
 
@@ -223,13 +232,13 @@ REG.add(Contract(
         A('progress', 'src.i > old(src.i)'),
         P(['C13'], 'position', 'kind(result) != K("TexText") ==> epos(result) == src.Q[old(src.i)].position'),
         P(['C13', 'C02'], 'text-leaf-is-the-token', 'kind(result) == K("TexText") ==> etok(result) == src.Q[old(src.i)]'),
-        P(['C08', 'C01'], 'exact-when-tight', 'tolerance == 0 and tight(result) ==> ser(result) == ' + _RE_SPAN),
-        P(['C08'], 'conserves-non-blank', 'tolerance == 0 and clean(result) ==> NW(ser(result)) == NW(%s)' % _RE_SPAN),
+        P(['C08', 'C01'], 'exact-when-tight', 'tolerance == 0 and cleansrc(src) and tight(result) ==> ser(result) == ' + _RE_SPAN),
+        P(['C08'], 'conserves-non-blank', 'tolerance == 0 and cleansrc(src) and clean(result) ==> NW(ser(result)) == NW(%s)' % _RE_SPAN),
         G('not-bare', 'not isbare(result)')]))
 
 
 # ---------------------------------------------------------------------- argument loops
-def args_clauses(old_items, old_i, strict='tolerance == 0'):
+def args_clauses(old_items, old_i, strict='tolerance == 0 and cleansrc(src)'):
     """conservation of an argument list that grew from `old_items` while the cursor moved from `old_i`"""
     span = Wx(old_i, 'src.i')
     return [
@@ -287,8 +296,8 @@ REG.add(Contract(
     result='TexArgs', requires=SRC_REQ, modifies=['src.i', 'src.m'], props=['C06', 'C08', 'C09', 'C12', 'C01'],
     measure=(MEASURE, RANK['read_args']), raises=dict(ALLOWED),
     ensures=SRC_KEEP + [
-        P(['C08', 'C01'], 'exact', 'tolerance == 0 and TAg(result.items) ==> SL(result.items) == ' + _AR_SPAN),
-        P(['C08'], 'non-blank', 'tolerance == 0 and CLN(result.items) and not bare(result.items) ==> '
+        P(['C08', 'C01'], 'exact', 'tolerance == 0 and cleansrc(src) and TAg(result.items) ==> SL(result.items) == ' + _AR_SPAN),
+        P(['C08'], 'non-blank', 'tolerance == 0 and cleansrc(src) and CLN(result.items) and not bare(result.items) ==> '
                                 'NW(SL(result.items)) == NW(%s)' % _AR_SPAN),
         P(['C12'], 'zero-signature-takes-nothing',
           'n_required == 0 and n_optional == 0 ==> src.i == old(src.i) and len(result.items) == 0'),
@@ -331,9 +340,9 @@ REG.add(Contract(
              P(['C02'], 'name-token', _HASNAME + ' ==> result[0] == buf.Q[old(buf.i) + skip] and buf.i >= old(buf.i) + skip + 1'),
              P(['C06'], 'lone-backslash', 'not (%s) ==> len(result[0].text) == 0 and len(result[1].items) == 0 and '
                                           'buf.i == old(buf.i) + skip' % _HASNAME),
-             P(['C08', 'C01'], 'exact', '%s and tolerance == 0 and TAg(result[1].items) ==> SL(result[1].items) == %s'
+             P(['C08', 'C01'], 'exact', '%s and tolerance == 0 and cleansrc(buf) and TAg(result[1].items) ==> SL(result[1].items) == %s'
                % (_HASNAME, _RC_SPAN)),
-             P(['C08'], 'non-blank', '%s and tolerance == 0 and CLN(result[1].items) and not bare(result[1].items) ==> '
+             P(['C08'], 'non-blank', '%s and tolerance == 0 and cleansrc(buf) and CLN(result[1].items) and not bare(result[1].items) ==> '
                                      'NW(SL(result[1].items)) == NW(%s)' % (_HASNAME, _RC_SPAN)),
              P(['C12'], 'zero-argument-operators-take-nothing',
                '%s and n_required_args < 0 and n_optional_args < 0 and zero_arg_name(buf.Q[old(buf.i) + skip]) ==> '
@@ -361,15 +370,15 @@ _STOP_ITEM = ('src.i >= len(src.Q) or src.Q[src.i].cat == TC.GroupEnd or (src.Q[
               'src.i + 1 < len(src.Q) and (src.Q[src.i + 1].text == "end" or src.Q[src.i + 1].text == "item"))')
 _LIST_INV = lambda var: [
     A('inv', 'inv(src)'), A('range', 'old(src.i) <= src.i'),
-    A('exact', 'tolerance == 0 and TL(%s) ==> SL(%s) == %s' % (var, var, Wx('old(src.i)', 'src.i'))),
-    A('non-blank', 'tolerance == 0 and CLN(%s) ==> NW(SL(%s)) == NW(%s)' % (var, var, Wx('old(src.i)', 'src.i')))]
+    A('exact', 'tolerance == 0 and cleansrc(src) and TL(%s) ==> SL(%s) == %s' % (var, var, Wx('old(src.i)', 'src.i'))),
+    A('non-blank', 'tolerance == 0 and cleansrc(src) and CLN(%s) ==> NW(SL(%s)) == NW(%s)' % (var, var, Wx('old(src.i)', 'src.i')))]
 REG.add(Contract(
     'reader.read_item', types={'src': 'Buffer', 'tolerance': 'int'}, result='seq[E]', requires=SRC_REQ,
     modifies=['src.i', 'src.m'], props=['C06', 'C08', 'C02', 'C01'], measure=(MEASURE, RANK['read_item']),
     raises=dict(ALLOWED),
     ensures=SRC_KEEP + [
-        P(['C08', 'C01'], 'exact', 'tolerance == 0 and TL(result) ==> SL(result) == ' + Wx('old(src.i)', 'src.i')),
-        P(['C08'], 'non-blank', 'tolerance == 0 and CLN(result) ==> NW(SL(result)) == NW(%s)' % Wx('old(src.i)', 'src.i')),
+        P(['C08', 'C01'], 'exact', 'tolerance == 0 and cleansrc(src) and TL(result) ==> SL(result) == ' + Wx('old(src.i)', 'src.i')),
+        P(['C08'], 'non-blank', 'tolerance == 0 and cleansrc(src) and CLN(result) ==> NW(SL(result)) == NW(%s)' % Wx('old(src.i)', 'src.i')),
         P(['C02'], 'owns-up-to-next-item-or-end', _STOP_ITEM)],
     loops={0: Loop(ghost={'extras': 'seq[E]'}, invariant=_LIST_INV('extras'), decreases=MEASURE)}))
 
@@ -387,10 +396,10 @@ for _cls in data_c.MATHS:
             A('tight-monotone', 'TL(expr.contents) ==> TL(old(expr.contents))'),
             A('clean-monotone', 'CLN(expr.contents) ==> CLN(old(expr.contents))'),
             P(['C08', 'C12', 'C01'], 'exact',
-              'tolerance == 0 and TL(expr.contents) ==> concat(SL(expr.contents), clsattr(expr, "end")) == '
+              'tolerance == 0 and cleansrc(src) and TL(expr.contents) ==> concat(SL(expr.contents), clsattr(expr, "end")) == '
               'concat(SL(old(expr.contents)), %s)' % Wx('old(src.i)', 'src.i')),
             P(['C08'], 'non-blank',
-              'tolerance == 0 and CLN(expr.contents) ==> concat(NW(SL(expr.contents)), clsattr(expr, "end")) == '
+              'tolerance == 0 and cleansrc(src) and CLN(expr.contents) ==> concat(NW(SL(expr.contents)), clsattr(expr, "end")) == '
               'concat(NW(SL(old(expr.contents))), NW(%s))' % Wx('old(src.i)', 'src.i'))],
         loops={0: Loop(ghost={'contents': 'seq[E]'}, invariant=_LIST_INV('contents'), decreases=MEASURE,
                        modifies=['src.i', 'src.m'])}))
@@ -405,10 +414,10 @@ _FIVE = ('src.i >= 5 and src.i <= len(src.Q) and src.Q[src.i - 5].cat == TC.Esca
 _ENV_TYPES = {'src': 'Buffer', 'expr': 'UExpr:data.TexNamedEnv', 'skip_envs': 'seq[str]', 'tolerance': 'int',
               'mode': 'str'}
 _env_exact = P(['C08', 'C01'], 'exact',
-               'tolerance == 0 and TL(expr.contents) ==> concat(SL(expr.contents), %s) == '
+               'tolerance == 0 and cleansrc(src) and TL(expr.contents) ==> concat(SL(expr.contents), %s) == '
                'concat(SL(old(expr.contents)), %s)' % (_ENDTXT, Wx('old(src.i)', 'src.i')))
 _env_nonblank = P(['C08'], 'non-blank',
-                  'tolerance == 0 and CLN(expr.contents) ==> concat(NW(SL(expr.contents)), NW(%s)) == '
+                  'tolerance == 0 and cleansrc(src) and CLN(expr.contents) ==> concat(NW(SL(expr.contents)), NW(%s)) == '
                   'concat(NW(SL(old(expr.contents))), NW(%s))' % (_ENDTXT, Wx('old(src.i)', 'src.i')))
 REG.add(Contract(
     'reader.read_env', types=_ENV_TYPES, result='UExpr', requires=SRC_REQ,
@@ -435,4 +444,24 @@ REG.add(Contract(
         A('clean-monotone', 'CLN(expr.contents) ==> CLN(old(expr.contents))'),
         P(['C08', 'C11', 'C01'], 'exact',
           'concat(SL(expr.contents), %s) == concat(SL(old(expr.contents)), %s)'
+          % (_ENDTXT, Wx('old(src.i)', 'src.i'))).outside('D5', _FIVE),
+        P(['C08', 'C11'], 'non-blank',
+          'concat(NW(SL(expr.contents)), NW(%s)) == concat(NW(SL(old(expr.contents))), NW(%s))'
           % (_ENDTXT, Wx('old(src.i)', 'src.i'))).outside('D5', _FIVE)]))
+
+
+# ---------------------------------------------------------------------- read_tex: the top-level sequence of expressions
+_RT_SPAN = 'W(buf, old(buf.i), buf.i)'
+REG.add(Contract(
+    'reader.read_tex', types={'buf': 'Buffer', 'skip_envs': 'seq[str]', 'tolerance': 'int'}, result='seq[E]',
+    generator=True,
+    requires=[A('inv', 'inv(buf)'), A('token-stream', 'forall(k, 0, len(buf.Q), wft(buf, k))')],
+    modifies=['buf.i', 'buf.m'], props=['C06', 'C08', 'C01', 'C02'],
+    measure=('max(len(buf.Q) - buf.i, 0)', RANK['read_tex']), raises=dict(ALLOWED),
+    ensures=[A('inv', 'inv(buf)'), P(['C08', 'C01', 'C02'], 'consumes-everything', 'buf.i >= len(buf.Q)'),
+             P(['C08', 'C01'], 'exact', 'tolerance == 0 and cleansrc(buf) and TL(result) ==> SL(result) == ' + _RT_SPAN),
+             P(['C08'], 'non-blank', 'tolerance == 0 and cleansrc(buf) and CLN(result) ==> NW(SL(result)) == NW(%s)' % _RT_SPAN)],
+    loops={0: Loop(invariant=[A('inv', 'inv(buf)'), A('range', 'old(buf.i) <= buf.i'),
+                              A('exact', 'tolerance == 0 and cleansrc(buf) and TL(_out) ==> SL(_out) == ' + _RT_SPAN),
+                              A('non-blank', 'tolerance == 0 and cleansrc(buf) and CLN(_out) ==> NW(SL(_out)) == NW(%s)' % _RT_SPAN)],
+                   decreases='max(len(buf.Q) - buf.i, 0)')}))
